@@ -8,7 +8,7 @@ base = json.load(open("/root/.vp/BASELINE.json"))
 stable = set(base["stable_pass"])
 passed = set(); failed = set()
 for tc in ET.parse(out).getroot().iter("testcase"):
-    tid = "%s::%s" % (tc.get("classname"), tc.get("name"))
+    tid = ("%s::%s" % (tc.get("classname"), tc.get("name"))).replace(os.environ.get("REPO_DIR", "/repo") + "/", "/repo/")
     bad = any(ch.tag in ("failure", "error") for ch in tc)
     skipped = any(ch.tag == "skipped" for ch in tc)
     if bad: failed.add(tid)
